@@ -187,7 +187,7 @@ def enumerate_grammar(ctx, kf):
 def stream_checks(ctx, kf):
     """Heterogeneous streams through readers and rdump: output = records that have the field and
     satisfy the condition; nothing aborts."""
-    from flow.record import RecordDescriptor, RecordReader, RecordWriter
+    from flow.record import GroupedRecord, RecordDescriptor, RecordReader, RecordWriter
     from flow.record.selector import CompiledSelector, Selector
     from flow.record.tools import rdump
     rnd = random.Random(ctx.seed)
@@ -204,12 +204,18 @@ def stream_checks(ctx, kf):
     bad = 0
     for si in range(n_streams):
         recs = []
-        for _ in range(rnd.randint(4, 12)):
-            k = rnd.choice("abc")
+        # grouped records all share ONE class (GroupedRecord) whatever their members are, so "this class lacks the
+        # field" learnt from one group must not be applied to the next: streams mix groups with and without the field
+        kinds = list("agGbcGg") if si == 0 else [rnd.choice("abcgG") for _ in range(rnd.randint(4, 12))]
+        for k in kinds:
             if k == "a":
                 recs.append(A(n=rnd.randint(0, 9), s="x", _generated=ts))
             elif k == "b":
                 recs.append(B(s="y", m=rnd.randint(0, 9), _generated=ts))
+            elif k == "g":
+                recs.append(GroupedRecord("mix/grp", [C(other="g", _generated=ts), B(s="y", m=rnd.randint(0, 9), _generated=ts)]))
+            elif k == "G":
+                recs.append(GroupedRecord("mix/grp", [C(other="G", _generated=ts), A(n=rnd.randint(0, 9), s="x", _generated=ts)]))
             else:
                 recs.append(C(other="z", _generated=ts))
         path = os.path.join(tmpd, "s%d.records" % si)
